@@ -132,10 +132,10 @@ cgscon(char *norm, SuperMatrix *L, SuperMatrix *U,
 	} else {
 
 	    /* Multiply by inv(U'). */
-	    sp_ctrsv("Upper", "Transpose", "Non-unit", L, U, &work[0], info);
+	    sp_ctrsv("Upper", "Conjugate transpose", "Non-unit", L, U, &work[0], info);
 
 	    /* Multiply by inv(L'). */
-	    sp_ctrsv("Lower", "Transpose", "Unit", L, U, &work[0], info);
+	    sp_ctrsv("Lower", "Conjugate transpose", "Unit", L, U, &work[0], info);
 	    
 	}
 
